@@ -3,7 +3,7 @@ from vlib import *
 import gen_ex
 from props import exlib
 
-PROP = "C20"; MODULES = ["NeatviVerif.Props.C20", "NeatviVerif.Props.C20b"]; MODE = "ex20"
+PROP = "C20"; MODULES = ["NeatviVerif.Props.C20", "NeatviVerif.Props.C20b", "NeatviVerif.Props.C20c"]; MODE = "ex20"
 
 def streams(probe, tier, seed, wide):
     rng = Rng(seed)
